@@ -99,7 +99,7 @@ class Net:
             self.point("http-send " + ex.url)
         try:
             status, rh, body = self.handler(ex)
-        except urllib.error.URLError as e:
+        except OSError as e:  # URLError, or a bare socket.timeout as urllib lets it through from getresponse()
             ex.error = repr(e)
             if self.point:
                 self.point("http-fail " + ex.url)
